@@ -120,7 +120,7 @@ pub fn c09_sweep(max_l: usize) -> Vec<Program> {
                     }
                 }
                 // ---- iterator-level adaptors applied to a (partially consumed) container iterator
-                let mut stages: Vec<Stage> = vec![Stage::VAbs, Stage::MapId, Stage::Rev];
+                let mut stages: Vec<Stage> = vec![Stage::VAbs, Stage::MapId, Stage::Rev, Stage::Scan, Stage::ToTrust];
                 if matches!(ty, Ty::F64 | Ty::I32) {
                     stages.push(Stage::Abs);
                 }
@@ -189,6 +189,21 @@ pub fn c09_sweep(max_l: usize) -> Vec<Program> {
                         out.push(pipe(ty, data.clone(), backend.clone(), ViewOp::Titer, ops, Terminal::Drain));
                     }
                 }
+                // ---- a declared length (to_trust) consumed from both ends, then handed off
+                if bi == 0 {
+                    for script in [
+                        vec![Op::Wrap(Stage::ToTrust), Op::NextBack],
+                        vec![Op::Wrap(Stage::ToTrust), Op::NextBack, Op::Next, Op::NextBack],
+                        vec![Op::Next, Op::Wrap(Stage::ToTrust), Op::NthBack(1), Op::Next],
+                        vec![Op::Wrap(Stage::ToTrust), Op::Wrap(Stage::Rev), Op::Next, Op::NextBack],
+                        vec![Op::Wrap(Stage::Scan), Op::Next],
+                        vec![Op::Wrap(Stage::Scan), Op::Wrap(Stage::MapId), Op::Nth(1)],
+                    ] {
+                        for term in [Terminal::Drain, to_vec(), Terminal::HandOff(Sink::TrustedVec1(Container::Array1)), Terminal::HandOff(Sink::TrustedVec1(Container::Deque))] {
+                            out.push(pipe(ty, data.clone(), backend.clone(), ViewOp::Titer, script.clone(), term));
+                        }
+                    }
+                }
                 // ---- two adaptors deep: shift-like over shift-like after a pull in between
                 if bi == 0 && len <= 4 {
                     for n1 in [-(len as i32) - 1, -1, 1, len as i32, len as i32 + 1] {
@@ -234,13 +249,15 @@ fn subsets_upto2(n: usize) -> Vec<Vec<usize>> {
 pub fn c19_sweep(max_l: usize) -> Vec<Program> {
     let mut out = vec![];
     let containers = [Container::Vec, Container::Deque, Container::Array1, Container::Sim];
-    let pre: [&[Op]; 4] = [&[], &[Op::Next], &[Op::NextBack], &[Op::Next, Op::NextBack]];
+    let scan_pre = [Op::Wrap(Stage::Scan)];
+    let trust_pre = [Op::Wrap(Stage::ToTrust), Op::NextBack];
+    let pre: [&[Op]; 6] = [&[], &[Op::Next], &[Op::NextBack], &[Op::Next, Op::NextBack], &scan_pre, &trust_pre];
     for ty in [Ty::I32, Ty::OptF64, Ty::Trk, Ty::F64] {
         for m in 0..=max_l {
             for variant in 0..=(if ty == Ty::OptF64 { 2 } else { 0 }) {
                 let data = pattern(ty, m, variant);
                 for ops in pre.iter() {
-                    if ops.len() > m {
+                    if ops.iter().filter(|o| !matches!(o, Op::Wrap(_))).count() > m {
                         continue;
                     }
                     for backend in [Backend::Sim, Backend::Deque { head: 3 }] {
@@ -496,6 +513,20 @@ pub fn generators(level: usize) -> Vec<Program> {
 /// rolling drivers whose default (lazy) path hands an internal iterator to the output container
 pub fn rolling(max_l: usize) -> Vec<Program> {
     let mut out = vec![];
+    for backend in [Backend::Vec, Backend::Array1] {
+        for len in 0..=max_l {
+            for variant in [0, 2] {
+                out.push(Program::Roll(Roll {
+                    ty: Ty::F64,
+                    data: pattern(Ty::F64, len, variant),
+                    backend: backend.clone(),
+                    driver: crate::genroll::SLICE_SWEEP,
+                    window: 1,
+                    out: Container::Sim,
+                }));
+            }
+        }
+    }
     for backend in [
         Backend::SimInput,
         Backend::Deque { head: 0 },
